@@ -409,7 +409,9 @@ def generate(rng, tier):
     for kind in ('iab', 'oui'):
         data = _read_txt(kind + '.txt')
         if data:
-            cases.append(Case('%s_index %s' % (kind, _hexline(data)), 'index/%s/shipped-file' % kind, ('file', kind)))
+            note = ('the whole shipped %s.txt (%d bytes, sha1 %s) through the index parser; the rows must equal '
+                    '%s.idx row for row' % (kind, len(data), hashlib.sha1(data).hexdigest(), kind))
+            cases.append(Case('%s_index %s' % (kind, _hexline(data)), 'index/%s/shipped-file' % kind, ('file', kind, note)))
     return cases
 
 
